@@ -110,6 +110,14 @@ func (s *VaultPKISource) Issue(commonName string) (*tls.Certificate, error) {
 
 	expires := x509Cert.NotAfter
 	certTTL := time.Until(expires) - refresh
+	// a certificate which does not live longer than the refresh time would
+	// be issued again at once, and that one as well: wait for half its life
+	if certTTL <= 0 {
+		certTTL = time.Until(expires) / 2
+	}
+	if certTTL < time.Second {
+		certTTL = time.Second
+	}
 	time.AfterFunc(certTTL, func() {
 		_, err := s.Issue(commonName)
 		if err != nil {
